@@ -29,6 +29,20 @@ def run_family(name, mk, tier):
             reg = with_paths(reg_in, out["paths"]) if "paths" in out else reg_in
             case = replay_gen_case(concretize(reg_in, m0), STDS, resolve=ids, dedup=dedup)
             tag = "dedup-" if dedup else ""
+            if dedup and "paths" in out:
+                # the utility must not leave two differently shaped types under one path (judged by the independent shape-group oracle of C04)
+                import c04
+                creg0 = concretize(reg_in, m0); groups = c04.expected_groups(creg0); gid = {}
+                for p, gs in groups.items():
+                    for k, g in enumerate(gs):
+                        for i in g: gid[i] = (p, k)
+                under = {}
+                for i, p in enumerate(out["paths"]):
+                    if i in gid: under.setdefault(tuple(p), set()).add(gid[i])
+                for p, gset in under.items():
+                    if len(gset) > 1:
+                        res["violations"].append({"what": "de-duplication leaves differently shaped types under the path %s (shape groups %s) | %s" % ("::".join(p), sorted(gset), "; ".join(describe(creg0, 14))),
+                                                  "case": {"op": "dedup", "reg": regdsl.encode(creg0).hex()}, "ids": ids, "kind": "dedup-leaves-shapes"})
             if out["result"] == "Err":
                 res["outcome"].append(tag + "Err:" + out["err"][0])
                 if out["err"][0] != "DuplicateTypePath":
@@ -259,6 +273,17 @@ def families(eng, tier, seed):
 def confirm(v, real):
     if "panic" in real: return True
     case = v["case"]; reg = regdsl.decode(bytes.fromhex(case["reg"]))
+    if v.get("kind") == "dedup-leaves-shapes":
+        import c04
+        if "paths1" not in real: return False
+        groups = c04.expected_groups(reg); gid = {}
+        for p, gs in groups.items():
+            for k, g in enumerate(gs):
+                for i in g: gid[i] = (p, k)
+        under = {}
+        for i, p in enumerate(real["paths1"].split(",")):
+            if i in gid: under.setdefault(p, set()).add(gid[i])
+        return any(len(s) > 1 for s in under.values())
     if v.get("kind") == "other-error":
         return real.get("result") == "Err" and real.get("err_variant") != "DuplicateTypePath"
     if real.get("paths"): reg = with_paths(reg, [p.split("::") if p else [] for p in real["paths"].split(",")])
@@ -267,7 +292,19 @@ def confirm(v, real):
 def classify(v):
     w = v["what"]; fam = v.get("family", "")
     if "panic" in w[:20]: return "panic"
+    if v.get("kind") == "dedup-leaves-shapes":
+        import c04
+        if "paths1" not in real: return False
+        groups = c04.expected_groups(reg); gid = {}
+        for p, gs in groups.items():
+            for k, g in enumerate(gs):
+                for i in g: gid[i] = (p, k)
+        under = {}
+        for i, p in enumerate(real["paths1"].split(",")):
+            if i in gid: under.setdefault(p, set()).add(gid[i])
+        return any(len(s) > 1 for s in under.values())
     if v.get("kind") == "other-error": return "other-error"
+    if v.get("kind") == "dedup-leaves-shapes": return "dedup-leaves-shapes:" + fam.rsplit("-o", 1)[0]
     if "index" in w and ("variant" in fam or "versions" in fam or "index" in fam): return "variant-index-not-compared"
     return "conflation:" + fam.rsplit("-o", 1)[0]
 
